@@ -124,8 +124,14 @@ def _prog_detmap(seq, w, key):
     """The world's detuning map `key` defined on the PROGRAM's own register (2D or 3D; ids by position)."""
     reg = seq.get_register(include_mappable=True)
     if hasattr(reg, "qubits"):
+        from pulser.register.weight_maps import DetuningMap
+
         ids = list(reg.qubit_ids)
-        return reg.define_detuning_map({ids[i]: wt for i, (q, wt) in enumerate(w.detmaps[key].items()) if i < len(ids)})
+        wts = {ids[i]: wt for i, (q, wt) in enumerate(w.detmaps[key].items()) if i < len(ids)}
+        # the traps are handed over in DESCENDING coordinate order (a map is the same map in whatever order its traps are listed)
+        items = sorted(((tuple(float(v) for v in np.asarray(reg.qubits[q].as_array(detach=True) if hasattr(reg.qubits[q], "as_array") else reg.qubits[q])), wt)
+                        for q, wt in wts.items()), reverse=True)
+        return DetuningMap([list(c) for c, _ in items], [wt for _, wt in items])
     return w.detmap(key)
 
 
